@@ -324,7 +324,7 @@ pub fn run(ctx: &Ctx) {
     }
     ctx.mark_exhaustive(&format!("all operator sequences of length 1..={maxlen} over 16 binary operators"));
     ctx.judge_all(minus_cases(), Via::Cli, None);
-    let n = ctx.n(40_000, 2_000_000);
+    let n = ctx.n(100_000, 2_000_000);
     ctx.proptest_tapes("trees", n, 300, Via::Cli, None, |t| {
         let dd = 2 + t.pick(6);
         let mut e = random_expr(t, dd);
